@@ -1,5 +1,135 @@
 import KrroodVerif.Sexp
+import KrroodVerif.Model.SqlTr
+/-!
+Driver for C07.  One case =
+`(q (the T|F) (kind entity|setOf) (vars C0 C1 …) (cond <expr>|none) (schema (cls N P|- (cols …) (rels (a T) …)) …)
+    (db (o C (v a n|N) … (r a i|N) …) …))`
+expr    := (and e e) | (or e e) | (cmp op L R) | (in L (vals n|N …)) | (attr (ch v a…)) | (not e) | (exists v e)
+         | (forall v e) | (pred name) | (barevar v) | (barelit T|F)
+operand := (ch v a…) | (lit n|N) | (other index|call|flatten|selfvar|objlit|nested [chain])
+`(in L (vals …) [in|contains])`: the optional last atom is the python spelling, irrelevant to the model.
+
+Output: `model=` what translate+execSql / evalMem (the definitions the theorems are about) give,
+`spec=PROP …` what the property demands (both worlds agree, or an EQLTranslationError), `trig=` open findings whose
+Lean-defined trigger holds on this input *and* for which the model predicts a deviation from the property.
+-/
 namespace KrroodVerif.Drive.C07
-/-- stub: replaced when the model for C07 is built -/
-def run (_ : Sexp) : String := "model=unimplemented\tspec=unimplemented\ttrig="
+open KrroodVerif.SqlTr
+
+def parseOptInt (s : Sexp) : Option (Option Int) :=
+  match s with
+  | .atom "N" => some none
+  | _ => s.asInt?.map some
+
+def parseOptNat (s : Sexp) : Option (Option Nat) :=
+  match s with
+  | .atom "N" => some none
+  | _ => s.asNat?.map some
+
+def parseCmp : String → Option Cmp
+  | "eq" => some .eq | "ne" => some .ne | "lt" => some .lt | "le" => some .le | "gt" => some .gt | "ge" => some .ge
+  | _ => none
+
+def parseChain : Sexp → Option Chain
+  | .list (.atom "ch" :: v :: path) => do
+    let v ← v.asNat?
+    let p ← path.mapM Sexp.asAtom?
+    pure ⟨v, p⟩
+  | _ => none
+
+def parseOperand : Sexp → Option Operand
+  | .list [.atom "lit", v] => (parseOptInt v).map .lit
+  | .list (.atom "other" :: .atom k :: _) =>
+    match k with
+    | "index" => some (.other .index) | "call" => some (.other .call) | "flatten" => some (.other .flatten)
+    | "selfvar" => some (.other .selfVar) | "objlit" => some (.other .objLit) | "nested" => some (.other .nested)
+    | _ => none
+  | s => (parseChain s).map .chain
+
+partial def parseExpr : Sexp → Option Expr
+  | .list [.atom "and", a, b] => do pure (.and (← parseExpr a) (← parseExpr b))
+  | .list [.atom "or", a, b] => do pure (.or (← parseExpr a) (← parseExpr b))
+  | .list [.atom "cmp", .atom op, l, r] => do pure (.cmp (← parseCmp op) (← parseOperand l) (← parseOperand r))
+  | .list (.atom "in" :: item :: .list (.atom "vals" :: vs) :: _) => do pure (.isIn (← parseOperand item) (← vs.mapM parseOptInt))
+  | .list [.atom "attr", c] => (parseChain c).map .attr
+  | .list [.atom "not", e] => (parseExpr e).map .not
+  | .list [.atom "exists", v, e] => do pure (.exist (← v.asNat?) (← parseExpr e))
+  | .list [.atom "forall", v, e] => do pure (.all (← v.asNat?) (← parseExpr e))
+  | .list [.atom "pred", .atom n] => some (.pred n)
+  | .list [.atom "barevar", v] => v.asNat?.map .bareVar
+  | .list [.atom "barelit", b] => b.asBool?.map .bareLit
+  | _ => none
+
+def parseClass : Sexp → Option ClassDecl
+  | .list [.atom "cls", .atom n, .atom p, .list (.atom "cols" :: cols), .list (.atom "rels" :: rels)] => do
+    let cols ← cols.mapM Sexp.asAtom?
+    let rels ← rels.mapM fun r => match r with
+      | .list [.atom a, .atom t] => some (a, t)
+      | _ => none
+    pure ⟨n, if p == "-" then none else some p, cols, rels⟩
+  | _ => none
+
+def parseObj : Sexp → Option Obj
+  | .list (.atom "o" :: .atom c :: fields) => do
+    let vals ← (Sexp.fields fields "v").mapM fun f => match f with
+      | [.atom a, v] => (parseOptInt v).map fun v => (a, v)
+      | _ => none
+    let refs ← (Sexp.fields fields "r").mapM fun f => match f with
+      | [.atom a, v] => (parseOptNat v).map fun v => (a, v)
+      | _ => none
+    pure ⟨c, vals, refs⟩
+  | _ => none
+
+structure Case where
+  schema : Schema
+  db : DB
+  q : Query
+
+def parseCase : Sexp → Option Case
+  | .list (.atom "q" :: items) => do
+    let the ← (← Sexp.field? items "the").head? >>= Sexp.asBool?
+    let kind ← match (← Sexp.field? items "kind") with
+      | [.atom "entity"] => some SelKind.entity
+      | [.atom "setOf"] => some SelKind.setOf
+      | _ => none
+    let vars ← (← Sexp.field? items "vars").mapM Sexp.asAtom?
+    let cond ← match (← Sexp.field? items "cond") with
+      | [.atom "none"] => some none
+      | [e] => (parseExpr e).map some
+      | _ => none
+    let schema ← (← Sexp.field? items "schema").mapM parseClass
+    let db ← (← Sexp.field? items "db").mapM parseObj
+    pure ⟨schema, db, ⟨the, kind, vars, cond⟩⟩
+  | _ => none
+
+def showIds (xs : List Nat) : String := showList (xs.map toString)
+
+def showThe : TheOutcome → String
+  | .one i => s!"one:{i}" | .noResult => "none" | .multiple => "multiple"
+
+def showMem (q : Query) : Option (List Nat) → String
+  | none => "error"
+  | some ids => if q.the then showThe (theOf ids) else showIds ids
+
+def showSql (q : Query) (rows : List Nat) : String :=
+  if q.the then showThe (theOf rows) else showIds (toSet rows)
+
+def run (s : Sexp) : String :=
+  match parseCase s with
+  | none => "error=bad-case"
+  | some c =>
+    let mem := showMem c.q (evalMem c.schema c.q c.db)
+    match translate c.schema c.q with
+    | .error .outsideModel => "error=outside-model"
+    | .error (.rejected _) => "model=rejected\tspec=PROP rejected\ttrig="
+    | .error .escape => "model=escape\tspec=PROP rejected\ttrig=F-C07-3"
+    | .ok sq =>
+      let sql := showSql c.q (execSql c.schema sq c.db)
+      let trig :=
+        if sql == mem then []
+        else
+          (if trigByClass sq then ["F-C07-1"] else []) ++
+          (if trigNull c.schema c.q c.db then ["F-C07-2"] else []) ++
+          (if trigEqJoin sq then ["F-C07-4"] else [])
+      s!"model=mem={mem} sql={sql}\tspec=PROP mem={mem} sql={mem}\ttrig={",".intercalate trig}"
 end KrroodVerif.Drive.C07
